@@ -110,7 +110,12 @@ pub fn run(ctx: &mut Ctx) {
     let cases = ctx.cases(2000, 10);
     let max = ctx.pick(300, 1500);
     ctx.forall("sequences", cases, gen::seq_spec(CodecId::Dna, max), seq_case);
-    let lens = gen::long_lens(ctx.thorough(), ctx.seed);
+    let mut lens = gen::long_lens(ctx.thorough(), ctx.seed);
+    // enough codons that the translated sequence itself crosses 2^18 bits (6-bit symbols)
+    lens.push((1usize << 18) / 6 + 12);
+    if ctx.thorough() {
+        lens.push(3 * ((1usize << 18) / 6) + 40);
+    }
     ctx.forall_lens("sequences_long", &lens, |n| gen::seq_spec_n(CodecId::Dna, n), seq_case);
     ctx.require_class("codon_straddles_word");
     ctx.require_class("offset");
